@@ -150,14 +150,14 @@ Qed.
 
 (* ------------------------------------------------------------------ ParseParentGitignores rebuilds the stack *)
 Lemma parse_dirs_rep c t :
-  fault_free t = true -> wf_tree t = true -> (c_gitignore c = true -> gi_of t [] = None) ->
+  fault_free t = true -> wf_tree t = true ->
   forall rest acc ms0 (r : N),
   ~ In DOT (acc ++ r :: rest) ->
   (exists nd, lookup_from t (acc ++ r :: rest) = Some nd) ->
   stack_rep c t ms0 (acc ++ [r]) ->
   exists ms, parse_dirs t (prefixes_from acc (r :: rest)) ms0 = Some ms /\ stack_rep c t ms (acc ++ r :: rest).
 Proof.
-  intros FF WF Hroot. induction rest as [|r2 rest IH]; intros acc ms0 r ND [nd L] SR.
+  intros FF WF. induction rest as [|r2 rest IH]; intros acc ms0 r ND [nd L] SR.
   - exists ms0. split; [reflexivity|exact SR].
   - change (prefixes_from acc (r :: r2 :: rest)) with ((acc ++ [r]) :: prefixes_from (acc ++ [r]) (r2 :: rest)).
     cbn [parse_dirs].
@@ -178,13 +178,25 @@ Proof.
 Qed.
 
 Lemma parse_parent_rep c t d nd :
-  fault_free t = true -> wf_tree t = true -> (c_gitignore c = true -> gi_of t [] = None) ->
+  fault_free t = true -> wf_tree t = true ->
   d <> [] -> ~ In DOT d -> lookup_from t d = Some nd ->
   exists ms, parse_parent_gitignores t d = Some ms /\ stack_rep c t ms d.
 Proof.
-  intros FF WF Hroot NE ND L. destruct d as [|r rest]; [contradiction|].
-  unfold parse_parent_gitignores. apply (parse_dirs_rep c t FF WF Hroot rest [] [] r); [exact ND|exists nd; exact L|].
-  intros G s isdir. cbn [app proper_prefixes gi_anc existsb gi_match_stack]. rewrite (Hroot G). reflexivity.
+  intros FF WF NE ND L. destruct d as [|r rest]; [contradiction|].
+  unfold parse_parent_gitignores.
+  assert (E : ln_eqb (r :: rest) [DOT] = false).
+  { apply ln_eqb_neq. intros X. inversion X; subst. apply ND. left. reflexivity. }
+  rewrite E.
+  (* the root is a directory, since something lies below it *)
+  destruct t as [tn tk ts td tff|tn tch tdf]; [cbn [lookup_from] in L; discriminate|].
+  assert (FFc : forallb fault_free tch = true) by (rewrite fault_free_dir in FF; apply andb_true_iff in FF; tauto).
+  destruct (parse_dir_gi_ff [DOT] tch FFc) as [m PG]. rewrite PG.
+  apply (parse_dirs_rep c (Dir tn tch tdf) FF WF rest [] [m] r); [exact ND|exists nd; exact L|].
+  apply (stack_rep_child c (Dir tn tch tdf) [] [] tn tch tdf m r); try assumption.
+  - reflexivity.
+  - intros [].
+  - intros X. apply ND. left. exact X.
+  - apply stack_rep_nil.
 Qed.
 
 Lemma forallb_ext' {A} (f g : A -> bool) l : (forall x, f x = g x) -> forallb f l = forallb g l.
@@ -206,23 +218,20 @@ Qed.
 Theorem subdir_request_lemma c t d n ch df :
   c_paths c = [d] -> c_ignore_subdirs c = false ->
   wf_tree t = true -> fault_free t = true -> no_limits c = true -> no_xpanic c ->
-  dom_C01 c t = true ->
   d <> [] -> ~ In DOT d -> lookup_from t d = Some (Dir n ch df) -> reached (whole_tree c) t d = true ->
   fs_calls c t = filter (fun ep => is_prefix d (snd ep)) (fs_calls (whole_tree c) t).
 Proof.
-  intros P ISD WF FF NL NP D NE ND L R.
-  assert (D0 : dom_C01 (whole_tree c) t = true) by exact D.
-  rewrite (whole_tree_calls (whole_tree c) t WF FF NL NP eq_refl D0).
+  intros P ISD WF FF NL NP NE ND L R.
+  rewrite (whole_tree_calls (whole_tree c) t WF FF NL NP eq_refl).
   rewrite (expected_calls_below (whole_tree c) t d _ L WF NE ND R).
   rewrite <- expected_from_whole by exact ISD.
-  apply dom_C01_split in D as [Hre Hroot].
   destruct (lookup_from_wf_ff _ _ _ L) as [WFd FFd]. specialize (WFd WF). specialize (FFd FF).
   (* the engine's side *)
   unfold fs_calls, fs_result, run_fs. rewrite P. cbn [walk_individual_paths].
   assert (LK : lookup t d = Some (Dir n ch df)).
   { unfold lookup. destruct (ln_eqb d [DOT]) eqn:E; [|exact L]. apply ln_eqb_eq in E. subst d. exfalso. apply ND. left. reflexivity. }
   rewrite LK. rewrite (fault_free_stat _ FFd).
-  destruct (parse_parent_rep c t d _ FF WF Hroot NE ND L) as (ms & PP & SR).
+  destruct (parse_parent_rep c t d _ FF WF NE ND L) as (ms & PP & SR).
   assert (ST : exists st0, (if c_gitignore c then match parse_parent_gitignores t d with Some ms => Some (set_stack init_state ms) | None => None end
                              else Some init_state) = Some st0 /\ stack_rep c t (s_stack st0) d /\ s_events st0 = []).
   { destruct (c_gitignore c) eqn:G.
@@ -235,6 +244,6 @@ Proof.
   replace (s_events (set_stack st1 [])) with (s_events st1) by (destruct st1; reflexivity).
   rewrite <- (ns_events st1), N, ns_events, run_calls_events, EV0. cbn [app].
   change (calls (flat_map (call_events c) (schedule c (s_stack st0) d (Dir n ch df)))) with (sched_calls c (s_stack st0) d (Dir n ch df)).
-  pose proof (sched_calls_spec c t Hre Hroot (Dir n ch df) d (s_stack st0) L ND WFd FFd SR0) as X.
+  pose proof (sched_calls_spec c t (Dir n ch df) d (s_stack st0) L ND WFd FFd SR0) as X.
   rewrite (mpath_nonempty d NE) in X. exact X.
 Qed.
